@@ -102,13 +102,13 @@ package sm3
 //@   loop 4 invariant 0 <= i && i <= remain && sameobj(ret, k) && len(ret) == limit * 32 - times * 128 && len(k) == limit * 32
 //@   loop 4 decreases remain - i
 
-//@ func kdfGeneric property C01,C10
-//@   requires 0 <= baseMD.nx && baseMD.nx < 64 && baseMD.nx == baseMD.len % 64
-//@   requires 0 <= limit && limit <= 134217727 && 0 <= keyLen && keyLen <= limit * 32 && (limit - 1) * 32 < keyLen
-//@   ensures len(result) == keyLen
-//@   modifies nothing
-//@   loop 1 invariant 0 <= i && i <= limit
-//@   loop 1 decreases limit - i
+
+// byte j (0..31) of the digest whose words are W (big-endian)
+//@ pred sm3byte(W, j) := (W[j / 4] / pow2(24 - 8 * (j % 4))) % 256
+//@ lemma sm3f_range property C01 vars a:arr,o,n induct n : forall i :: 0 <= i && i < 8 ==> 0 <= SM3F(SM3IV(), a, o, n)[i] && SM3F(SM3IV(), a, o, n)[i] <= 4294967295
+
+// the digest depends only on the message bytes
+//@ lemma sm3w_ext property C01 vars m:arr,m2:arr,l : lemmainst(sm3_ext, SM3IV(), CAT(m, l, SM3PADARR(l), 0, SM3T(l) + 8), 0, CAT(m2, l, SM3PADARR(l), 0, SM3T(l) + 8), 0, (l + SM3T(l) + 8) / 64) ==> ((l >= 0 && forall j :: 0 <= j && j < l ==> m[j] == m2[j]) ==> SM3W(m, l) == SM3W(m2, l))
 
 // the digest of the ghost message: big-endian words of the fold over M || pad(L)
 //@ pred sm3words(d, M, L) := SM3F(SM3IV(), CAT(M, L, SM3PADARR(L), 0, SM3T(L) + 8), 0, (L + SM3T(L) + 8) / 64)
@@ -117,13 +117,55 @@ package sm3
 //@   requires dinv(d) && ghost(dlen, d) < 2305843009213693952
 //@   let M := ghost(dmsg, d)
 //@   let L := ghost(dlen, d)
-//@   let W := SM3F(SM3IV(), CAT(M, L, SM3PADARR(L), 0, SM3T(L) + 8), 0, (L + SM3T(L) + 8) / 64)
-//@   ensures forall i :: 0 <= i && i < 8 ==> result[4 * i] * 16777216 + result[4 * i + 1] * 65536 + result[4 * i + 2] * 256 + result[4 * i + 3] == W[i]
+//@   let W := SM3W(M, L)
+//@   ensures forall b :: 0 <= b && b < 32 ==> result[b] == sm3byte(W, b)
 //@   modifies d.h, d.x, d.nx, d.len, ghost(dmsg, d), ghost(dlen, d)
 //@   assert before call Write#1: t == SM3T(L) && len(padlen) == SM3T(L) + 8 && forall j :: 0 <= j && j < SM3T(L) + 8 ==> padlen[j] == SM3PADARR(L)[j]
-//@   apply after call Write#1: sm3_ext(SM3IV(), ghost(dmsg, d), 0, CAT(M, L, SM3PADARR(L), 0, SM3T(L) + 8), 0, (L + SM3T(L) + 8) / 64)
 //@   assert after call Write#1: d.nx == 0 && ghost(dlen, d) == L + SM3T(L) + 8 && (L + SM3T(L) + 8) % 64 == 0
 //@   assert after call Write#1: 64 * ((L + SM3T(L) + 8) / 64) == L + SM3T(L) + 8
 //@   assert after call Write#1: forall j :: 0 <= j && j < L + SM3T(L) + 8 ==> ghost(dmsg, d)[j] == CAT(M, L, SM3PADARR(L), 0, SM3T(L) + 8)[j]
 //@   assert after call Write#1: forall j :: 0 <= j && j < 64 * ((L + SM3T(L) + 8) / 64) ==> ghost(dmsg, d)[j] == CAT(M, L, SM3PADARR(L), 0, SM3T(L) + 8)[j]
+//@   apply after call Write#1: sm3_ext(SM3IV(), ghost(dmsg, d), 0, CAT(M, L, SM3PADARR(L), 0, SM3T(L) + 8), 0, (L + SM3T(L) + 8) / 64)
 //@   assert after call Write#1: forall i :: 0 <= i && i < 8 ==> d.h[i] == W[i]
+
+//@ func (*digest).Sum property C01
+//@   requires dinv(d) && ghost(dlen, d) < 2305843009213693952 && !sameobj(in, d.x) && !sameobj(in, d.h)
+//@   let M := ghost(dmsg, d)
+//@   let L := ghost(dlen, d)
+//@   let W := SM3W(M, L)
+//@   ensures len(result) == len(in) + 32
+//@   ensures forall j :: 0 <= j && j < len(in) ==> result[j] == old(in[j])
+//@   ensures forall b :: 0 <= b && b < 32 ==> result[len(in) + b] == sm3byte(W, b)
+//@   ensures dinv(d) && ghost(dlen, d) == L && ghost(dmsg, d) == M
+//@   modifies in[len(in)..cap(in)]
+
+//@ func (*digest).Size property C01
+//@   ensures result == 32
+//@   modifies nothing
+//@ func (*digest).BlockSize property C01
+//@   ensures result == 64
+//@   modifies nothing
+
+// KDF (GB/T 32918.4 5.4.3): K = Ha_1 || Ha_2 || ... truncated to keyLen bytes, Ha_q = SM3(Z || BE32(q)),
+// Z = the message absorbed by baseMD. Stated per block q-1 and byte b of the block.
+//@ pred kdfblock(kk, q, keyLen, M, L) := forall b :: 0 <= b && b < 32 ==> (32 * q + b < keyLen ==> kk[32 * q + b] == sm3byte(SM3W(CAT(M, L, BE32ARR(q + 1), 0, 4), L + 4), b))
+
+//@ func kdfGeneric property C01,C10
+//@   requires dinv(baseMD) && ghost(dlen, baseMD) < 2305843009213693000
+//@   requires 0 <= limit && limit <= 134217727 && 0 <= keyLen && keyLen <= limit * 32 && (limit - 1) * 32 < keyLen
+//@   let M := ghost(dmsg, baseMD)
+//@   let L := ghost(dlen, baseMD)
+//@   ensures len(result) == keyLen
+//@   ensures forall q :: 0 <= q && q < limit ==> kdfblock(result, q, keyLen, M, L)
+//@   fresh result
+//@   modifies nothing
+//@   loop 1 invariant 0 <= i && i <= limit && ct == i + 1 && len(k) == keyLen && objof(k) < 0
+//@   loop 1 invariant forall q :: 0 <= q && q < i ==> kdfblock(k, q, keyLen, M, L)
+//@   loop 1 decreases limit - i
+//@   assert before call Write#1: forall b :: 0 <= b && b < 4 ==> countBytes[b] == BE32ARR(i + 1)[b]
+//@   assert after call Write#1: ghost(dlen, md) == L + 4 && forall j :: 0 <= j && j < L + 4 ==> ghost(dmsg, md)[j] == CAT(M, L, BE32ARR(i + 1), 0, 4)[j]
+//@   apply before call checkSum#1: sm3w_ext(ghost(dmsg, md), CAT(M, L, BE32ARR(i + 1), 0, 4), L + 4)
+//@   assert before call checkSum#1: SM3W(ghost(dmsg, md), L + 4) == SM3W(CAT(M, L, BE32ARR(i + 1), 0, 4), L + 4)
+//@   assert after call checkSum#1: forall b :: 0 <= b && b < 32 ==> result[b] == sm3byte(SM3W(CAT(M, L, BE32ARR(i + 1), 0, 4), L + 4), b)
+//@   assert after call copy#1: kdfblock(k, i, keyLen, M, L)
+//@   assert after call copy#1: forall q :: 0 <= q && q < i ==> kdfblock(k, q, keyLen, M, L)
